@@ -266,6 +266,41 @@ def main(chk):
         if len(chk.samples) < 3 and not found:
             chk.sample(dict(schema=lib.schema.name, variant=v, input_head=text[:700], verdict='round trip equal, second write byte-identical'))
     probes.run_probes(chk, 'C01', judge_probe)
+    # histories: the same session object reads another exchange file first (five header entities, edition-2 SECTION_LANGUAGE /
+    # SECTION_CONTEXT), is emptied, then reads and writes the file under test: the written file must equal the one a fresh session writes
+    hist = [c for c in cases if c[3] == 'compact'][:12]
+
+    def hwork(c):
+        lib, pop, text, v = c
+        other = gen_p21.render(gen_p21.Population(pop.schema, pop.insts[:1], pop.header), 'compact')
+        other = other.replace('ENDSEC;\nDATA;', "SECTION_LANGUAGE($,'en');\nSECTION_CONTEXT($,('other context'));\nENDSEC;\nDATA;", 1)
+        other = other.replace("FILE_DESCRIPTION((", "FILE_DESCRIPTION(('the other file',", 1)
+        out = {}
+        with p21fam.Scratch('c01h') as sc:
+            inp, oth = sc.write('in.p21', text), sc.write('other.p21', other)
+            for how in ('purge', 'clear'):
+                r = p21fam.mon(lib, ['read', oth, how, 'read', inp, 'write', sc.path('h_%s.p21' % how)], sc.d)
+                out[how] = (r, sc.read('h_%s.p21' % how))
+            r = p21fam.mon(lib, ['read', inp, 'write', sc.path('fresh.p21')], sc.d)
+            out['fresh'] = (r, sc.read('fresh.p21'))
+        return c, other, out
+    for (lib, pop, text, v), other, out in run.pmap(hwork, hist):
+        chk.ev(3)
+        files = {'schema.exp': lib.schema.text(), 'in.p21': text, 'other.p21': other}
+        rf, fresh = out['fresh']
+        if rf.crashed() or fresh is None:
+            continue     # the plain round trip of this case is judged above
+        for how in ('purge', 'clear'):
+            r, got = out[how]
+            chk.seen('history', how, lib.schema.name)
+            if r.crashed() or r.timed_out:
+                chk.violation('history|another file read before (%s)|%s' % (how, r.symptom()), run.san_frames(r.err).__str__(), dict(files, stderr=r.err[-3000:]))
+            elif got is None or p21fam.mask_timestamp(got) != p21fam.mask_timestamp(fresh):
+                a, b = p21fam.mask_timestamp(got or '').splitlines(), p21fam.mask_timestamp(fresh).splitlines()
+                dl = [(x, y) for x, y in zip(a, b) if x != y][:1]
+                part = 'header' if dl and b.index(dl[0][1]) < b.index('DATA;') else 'data section'
+                chk.violation('history|another file read before (%s)|written %s differs from a fresh session\'s' % (how, part),
+                              'first differing line %r' % (dl,), dict(files, written=got or '', fresh=fresh))
     return chk.finish(
         rule='schemas from vf/gen_schema.py (seeded), populations from vf/gen_p21.py rendered in text variants; each case = p21read in->out1, '
              'out1->out2 + p21mon severity; distinct_nontrivial = distinct (attribute type shape, literal kind, plain/comment variant) triples whose value was compared',
